@@ -24,6 +24,24 @@ CHECKS = {
         note='Trusted: ptrace single-step, llvm-dwarfdump line table, shadow-stack rule of the tracer. Only steps starting in generated user '
              'functions are judged. Known genuine defects are keyed by structural cause in known_findings.json.',
         ref='DESIGN.md §4 C03'),
+    'C02': dict(
+        technique='runtime monitoring: text-integrity invariant hook after every command (/proc/pid/mem vs ELF files) plus output/exit-status differential against a native run',
+        text='Seeded histories of valid and failing debugger commands (break/remove/continue/step kinds/watch/restart/frame/detach) over generated '
+             'programs with and without signals; after every command every file-backed executable mapping is diffed against its file and the '
+             'differing bytes must be exactly the enabled user breakpoints plus the two documented internal ones; final output and exit status '
+             'must equal the native run. Held on the histories explored.',
+        note='Trusted: /proc/pid/mem and /proc/pid/maps, the ELF reader for e_entry and _dl_debug_state, the native run as the reference of '
+             'what the program computes.',
+        ref='DESIGN.md §4 C02'),
+    'C05': dict(
+        technique='runtime monitoring: backtrace compared with the shadow call stack of an independent single-step trace and with raw stack words',
+        text='At stops reached by breakpoints and steps (incl. recursion depth up to 300) the backtrace instruction pointers must equal '
+             '[pc] + the return addresses of the calls in progress according to the reference tracer, down to _start; CFA and return address of '
+             'frame_info must match the real stack slot; argument reads after frame selection must show that activation. Held on the stops '
+             'explored (after the fix commit for the recursion truncation).',
+        note='Trusted: shadow-stack rule of the reference tracer (call = push of next-instruction address + jump), /proc/pid/mem. Single-threaded '
+             'programs here; other threads are covered by the C09 workload.',
+        ref='DESIGN.md §4 C05'),
 }
 
 NOT_APPLICABLE = {
